@@ -2127,8 +2127,11 @@ namespace gch
         GCH_TRY
         {
           // Note: Not != because `using namespace std::rel_ops` can break constexpr.
-          for (; ! (first == last); ++first, static_cast<void> (++d_last))
+          for (; ! (first == last); ++first)
+          {
             construct (d_last, *first);
+            ++d_last;
+          }
           return d_last;
         }
         GCH_CATCH (...)
